@@ -263,7 +263,7 @@ def random_schedule(rng, search=False):
             labels.append(l)
     finish_all(m, labels, rng)
     final_request(m, labels)
-    case = {"kind": "search" if search else "rand", "labels": labels}
+    case = {"kind": "search" if search else "rand", "labels": labels, "src": rng.choice(["same", "same", "distinct"])}
     if inject:
         case["inject"] = inject
     return case
@@ -368,7 +368,21 @@ def fid(k):
 
 
 def versions_of(pages):
-    return sorted([int(str(f)[1:-4]), int(p.source)] for f, p in pages.items())
+    """what a result says: key -> version, the version being read from the page's TREE (Root.options),
+    never from its source text"""
+    return sorted([int(str(f)[1:-4]), int(p.ast.options["verif_version"])] for f, p in pages.items())
+
+
+def make_page(k, version, src_mode):
+    """a stored page.  src_mode "same": every version of a key has byte-identical source text (hence the
+    same Page.blake2b) and differs only in its tree - what re-parsing a page gives when only something it
+    includes changed; "distinct": the source text differs too."""
+    from snooty import n
+    from snooty.page import Page
+    f = fid(k)
+    source = f".. include:: /shared-{k}.rst\n" if src_mode == "same" else f"version {version} of page {k}\n"
+    ast = n.Root((0,), [n.Paragraph((1,), [n.Text((1,), f"payload {version}")])], f, {"verif_version": version})
+    return (Page.create(f, None, source, ast), f, [])
 
 
 class Replay:
@@ -425,7 +439,7 @@ class Replay:
         def fn():
             k = lab[1]
             if lab[0] == "set":
-                self.db[fid(k)] = (self.Page.create(fid(k), None, str(lab[2])), fid(k), [])
+                self.db[fid(k)] = make_page(k, lab[2], self.case.get("src", "same"))
                 self.store[k] = lab[2]
             else:
                 del self.db[fid(k)]
@@ -571,6 +585,284 @@ class Replay:
         }
 
 
+
+# ----------------------------------------------------------------------------------------------
+# FREE SCHEDULING: client threads run operation sequences; at every instrumented yield point of the
+# implementation (every acquire/release of either lock, every access to the cancellation event,
+# thread start / join, the postprocessor's entry) the scheduler picks ANY runnable thread.  Independent
+# of the model: judged by the direct oracle only.  Deterministic given the recorded choices.
+# ----------------------------------------------------------------------------------------------
+def free_case(rng, kind="free"):
+    """random programs for 2-3 client threads: <=4 mutations on 2 keys, <=3 requests, <=2 cancels"""
+    nthreads = rng.choice([2, 2, 3])
+    ops = []
+    version = 100
+    n_mut, n_req, n_can = rng.randint(1, 4), rng.randint(1, 3), rng.choice([0, 0, 1, 1, 2])
+    for _ in range(n_mut):
+        version += 1
+        k = rng.randrange(KEYS)
+        ops.append(["del", k] if rng.random() < 0.35 else ["set", k, version])
+    ops += [[rng.choice(["req", "reqw"])] for _ in range(n_req)] + [["cancel"] for _ in range(n_can)]
+    rng.shuffle(ops)
+    progs = [[] for _ in range(nthreads)]
+    for op in ops:
+        progs[rng.randrange(nthreads)].append(op)
+    setup = []
+    r = rng.random()
+    if r < 0.75:  # start from a populated store, usually with a clean cache
+        setup = [["set", 0, 1], ["set", 1, 2]][: rng.choice([1, 2, 2])]
+        if rng.random() < 0.7:
+            setup.append(["reqw"])
+    case = {"kind": kind, "setup": setup, "programs": [p for p in progs if p], "seed": rng.randrange(1 << 30),
+            "src": rng.choice(["same", "same", "distinct"])}
+    if rng.random() < 0.4 and len(case["programs"]) >= 2:
+        # one-preemption schedule: the victim runs `at` steps, then everybody else runs as far as
+        # possible, then the victim continues
+        case["preempt"] = {"victim": rng.randrange(len(case["programs"])), "at": rng.randint(1, 9)}
+    return case
+
+
+def preemption_family(rng):
+    """systematic: one thread performs a single mutation on a populated, clean store; it is preempted
+    after each of its first yield points in turn while another thread makes a complete request"""
+    out = []
+    for mut in (["del", 1], ["del", 0], ["set", 0, 50], ["set", 1, 51]):
+        for other in ([["reqw"]], [["req"], ["reqw"]]):
+            for at in range(1, 9):
+                out.append({"kind": "free-preempt", "setup": [["set", 0, 1], ["set", 1, 2], ["reqw"]],
+                            "programs": [[mut], other], "seed": rng.randrange(1 << 30), "src": "same",
+                            "preempt": {"victim": 0, "at": at}})
+    return out
+
+
+class FreeRun:
+    def __init__(self, case):
+        from snooty import util
+        from snooty.page_database import PageDatabase
+        from snooty.postprocess import PostprocessorResult
+        from snooty.target_database import TargetDatabase
+
+        self.util = util
+        self.PostprocessorResult = PostprocessorResult
+        self.TargetDatabase = TargetDatabase
+        self.case = case
+        self.s = S.Sched(watchdog=float(os.environ.get("C13_WATCHDOG", "20")), mode="free")
+        self.db = PageDatabase()
+        self.db._lock = S.ILock(self.s, "db")
+        self.db.worker._lock = S.ILock(self.s, "L")
+        self.event = S.IEvent(self.s)
+        self.db.worker._WorkerLauncher__cancel = self.event
+        self.muts = []
+        self.reqs = []
+        self.errors = []
+        self.cancelled_runs = []
+        self.chosen = []
+        self.cached_bad = None
+        self.nreq = 0
+        self.epilogue_from = None
+
+    def factory(self, rid):
+        fr = self
+
+        class GatedPostprocessor:
+            def run(self, pages, token):
+                fr.s.park(("run",))
+                if token.is_set():
+                    fr.cancelled_runs.append(rid)
+                    raise fr.util.CancelledException()
+                return fr.PostprocessorResult(pages, {"origin": rid}, {}, fr.TargetDatabase())
+
+        return GatedPostprocessor
+
+    def program(self, name, ops):
+        def fn():
+            for op in ops:
+                try:
+                    if op[0] in ("set", "del"):
+                        rec = {"op": op[0], "k": op[1], "v": op[2] if op[0] == "set" else None, "inv": self.s.clock, "resp": None, "by": name}
+                        self.muts.append(rec)
+                        if op[0] == "set":
+                            self.db[fid(op[1])] = make_page(op[1], op[2], self.case.get("src", "same"))
+                        else:
+                            del self.db[fid(op[1])]
+                        rec["resp"] = self.s.clock
+                    elif op[0] == "cancel":
+                        self.db.cancel()
+                    else:
+                        rid = self.nreq
+                        self.nreq += 1
+                        rec = {"rid": rid, "inv": self.s.clock, "by": name, "queue": None, "worker": None}
+                        self.reqs.append(rec)
+                        rec["queue"] = self.db.flush(self.factory(rid))
+                        w = self.s.worker_of.get(name)
+                        rec["worker"] = w
+                        if op[0] == "reqw" and w is not None:
+                            self.s.block_until(lambda w=w: w.state == "done", ("result", rid))
+                except Exception as e:  # an operation of the public API raised
+                    self.errors.append(f"{op[0]}:{type(e).__name__}")
+        return fn
+
+    def loop(self, choose):
+        s = self.s
+        while True:
+            s.runnable_waiters.clear()
+            run = s.runnable()
+            if not run:
+                break
+            t = choose(run)
+            self.chosen.append(t.name)
+            s.clock += 1
+            s.resume(t)
+            if self.cached_bad is None:
+                c = getattr(self.db, "_PageDatabase__cached")
+                o = c.metadata.get("origin")
+                if o is not None and o in self.cancelled_runs:
+                    self.cached_bad = [len(self.chosen) - 1, o]
+
+    def run(self):
+        s = self.s
+        case = self.case
+        if case.get("setup"):
+            s.spawn("s0", "client", self.program("s0", case["setup"]))
+            self.loop(lambda run: run[0])
+        self.concurrent_from = len(self.chosen)
+        names = []
+        for i, prog in enumerate(case["programs"]):
+            names.append(f"t{i}")
+            s.spawn(f"t{i}", "client", self.program(f"t{i}", prog))
+        rng = random.Random(case.get("seed", 0))
+        choices = case.get("choices")
+        pre = case.get("preempt")
+        victim = f"t{pre['victim']}" if pre else None
+        state = {"i": 0, "vsteps": 0}
+
+        def choose(run):
+            i = state["i"]
+            state["i"] += 1
+            pick = None
+            if choices is not None and i < len(choices):
+                for t in run:
+                    if t.name == choices[i]:
+                        pick = t
+            if pick is None and pre:
+                vic = [t for t in run if t.name == victim]
+                others = [t for t in run if t.name != victim]
+                if vic and (state["vsteps"] < pre["at"] or not others):
+                    pick = vic[0]
+                else:
+                    pick = rng.choice(others)
+            if pick is None:
+                pick = rng.choice(run)
+            if pick.name == victim:
+                state["vsteps"] += 1
+            return pick
+
+        self.loop(choose)
+        stuck = [t.name + "=" + t.status() for t in s.all if t.state != "done"]
+        if not stuck:
+            # quiescent epilogue: one more request, alone
+            self.epilogue_from = len(self.chosen)
+            s.spawn("z", "client", self.program("z", [["reqw"]]))
+            self.loop(lambda run: run[0])
+            stuck = [t.name + "=" + t.status() for t in s.all if t.state != "done"]
+        if stuck:
+            s.release_all()
+        reqs = []
+        for rec in self.reqs:
+            out = None
+            q = rec["queue"]
+            if q is not None:
+                try:
+                    res, exc = q.get(timeout=0.5) if stuck else q.get_nowait()
+                    if exc is not None:
+                        out = "cancelled" if isinstance(exc, self.util.CancelledException) else {"exc": type(exc).__name__}
+                    else:
+                        out = {"ok": versions_of(res.pages), "origin": res.metadata.get("origin")}
+                except queue.Empty:
+                    pass
+            w = rec["worker"]
+            reqs.append({"rid": rec["rid"], "by": rec["by"], "inv": rec["inv"],
+                         "ret": w.exit_clock if (w is not None and w.exit_clock is not None) else self.s.clock, "out": out})
+        parsed = getattr(self.db, "_parsed")
+        return {
+            "free": True,
+            "muts": [{k: v for k, v in m.items()} for m in self.muts],
+            "reqs": reqs,
+            "errors": self.errors,
+            "deadlock": stuck,
+            "cached_bad": self.cached_bad,
+            "cancelled_runs": self.cancelled_runs,
+            "chosen": self.chosen[self.concurrent_from:self.epilogue_from],
+            "steps": len(self.chosen),
+            "final_store": sorted([int(str(f)[1:-4]), int(v[0].ast.options["verif_version"])] for f, v in parsed.items()),
+            "event_log": "".join(x[0] for x in self.event.log),
+        }
+
+
+def explain(result, muts, inv, ret, strict=True):
+    """is `result` (sorted [[k, v]]) the content of the store at some instant of [inv, ret], for SOME
+    linearization of the mutations (each takes effect at one instant between its invocation and its
+    response)?  strict=False drops the obligation to include mutations that completed before `inv`."""
+    res = {k: v for k, v in result}
+    must, opt = [], []
+    for m in muts:
+        if m["inv"] > ret:
+            continue  # cannot have taken effect
+        if strict and m["resp"] is not None and m["resp"] < inv:
+            must.append(m)
+        else:
+            opt.append(m)
+    keys = sorted({m["k"] for m in muts} | set(res))
+
+    def before(a, b):
+        return a["resp"] is not None and a["resp"] < b["inv"]
+
+    for mask in range(1 << len(opt)):
+        chosen = must + [m for i, m in enumerate(opt) if mask >> i & 1]
+        # downward closed: whatever completed before the invocation of a chosen one is chosen too
+        if any(before(a, b) and a not in chosen for b in chosen for a in muts if a["inv"] <= ret):
+            continue
+        ok = True
+        for k in keys:
+            on_k = [m for m in chosen if m["k"] == k]
+            if not on_k:
+                ok = k not in res
+            else:
+                last = [m for m in on_k if not any(before(m, o) for o in on_k)]
+                ok = any((m["op"] == "del" and k not in res) or (m["op"] == "set" and res.get(k) == m["v"]) for m in last)
+            if not ok:
+                break
+        if ok:
+            return True
+    return False
+
+
+def free_oracle(case, impl):
+    if impl["errors"]:
+        return f"operation-failed:{impl['errors'][0]}: a public operation raised"
+    if impl["deadlock"]:
+        return f"never-returned: no thread can make progress but some have not finished: {impl['deadlock']}"
+    for r in impl["reqs"]:
+        out = r["out"]
+        if out is None:
+            return f"never-returned: request {r['rid']} produced neither a result nor a cancellation"
+        if out == "cancelled":
+            continue
+        if "exc" in out:
+            return f"request-failed:{out['exc']}: request {r['rid']} raised instead of returning a snapshot"
+        if explain(out["ok"], impl["muts"], r["inv"], r["ret"]):
+            continue
+        hist = [[m["op"], m["k"], m["v"], m["inv"], m["resp"]] for m in impl["muts"]]
+        if explain(out["ok"], impl["muts"], r["inv"], r["ret"], strict=False):
+            return (f"stale-result: request {r['rid']} (issued at step {r['inv']}, returned at {r['ret']}) returned {out['ok']}, a state "
+                    f"older than an update or deletion completed before the request was issued; mutations [op,k,v,from,to]: {hist}")
+        return (f"inconsistent-snapshot: request {r['rid']} (steps {r['inv']}..{r['ret']}) returned {out['ok']}, pages that were never "
+                f"stored together; mutations [op,k,v,from,to]: {hist}")
+    if impl["cached_bad"]:
+        return f"cancelled-run-published: after step {impl['cached_bad'][0]} the published result comes from request {impl['cached_bad'][1]} whose run was cancelled"
+    return None
+
+
 EXPECT = {
     "joining": "join", "unlocked": "park:rel:L", "tracked": "park:rel:L",
     "started": "park:acq:db", "copied": "park:rel:db", "ran": "park:acq:db", "published": "park:rel:db",
@@ -597,7 +889,13 @@ class C13(core.PropertyCheck):
     parallel = True
     quick_budget = 2400
     thorough_budget = 40000
-    rule = ("a case = one schedule (label sequence of Model/PageDb.lean) replayed on the model and on a real PageDatabase under a "
+    rule = ("free: client threads run random operation sequences (<=4 set/del on 2 keys, <=3 requests, <=2 cancels, 2-3 threads) and the "
+            "scheduler picks a seeded random runnable thread at EVERY instrumented yield point of the implementation (each acquire/release of "
+            "either lock, each access to the cancel event, thread start/join, postprocessor entry), independent of the model, judged by the "
+            "direct oracle only (linearizability window per request + quiescent epilogue request); free-preempt: systematic one-preemption "
+            "schedules (a single mutation preempted after each of its first 8 yield points by a complete request); pages of a key keep "
+            "byte-identical source text in 2 of 3 cases (same blake2b), the version lives in the tree. "
+            "labels: a case = one schedule (label sequence of Model/PageDb.lean) replayed on the model and on a real PageDatabase under a "
             "deterministic scheduler; random: 0-4 mutations (set/del) on 2 keys, 1-3 requests, 0-2 cancels, issued by independent "
             "threads or by 2-3 client threads in program order (flush or flush_and_wait), every interleaving point chosen by the seeded rng, "
             "1 in 4 with mutations landed in the middle of the copy loop; cover: one schedule per reachable (state, enabled label) pair "
@@ -617,8 +915,14 @@ class C13(core.PropertyCheck):
     # ---- cases ----
     def generate(self, rng, budget, tier):
         if tier == "search":
-            for _ in range(budget):
-                yield random_schedule(rng, search=True)
+            # after a broken tie: mostly free scheduling (independent of the model), the systematic
+            # one-preemption family first
+            yield from preemption_family(rng)
+            for i in range(budget):
+                if i % 4:
+                    yield free_case(rng, "free-search")
+                else:
+                    yield random_schedule(rng, search=True)
             return
         self.cover_stats = []
         for cfg in (COVER_CONFIGS_QUICK if tier == "quick" else COVER_CONFIGS):
@@ -629,15 +933,52 @@ class C13(core.PropertyCheck):
             yield from out
         for _ in range(budget):
             yield random_schedule(rng)
+        yield from preemption_family(rng)
+        for _ in range(budget // 8):
+            yield free_case(rng)
 
     def extra_checks(self, tier, rng):
         return [], {"transition_coverage": getattr(self, "cover_stats", [])}
 
     def shrink_candidates(self, case):
+        if "programs" in case:
+            yield from self.shrink_free(case)
+            return
         n0 = len(case["labels"])
         for cand in self._shrink_candidates(case):
             if len(cand["labels"]) < n0:
+                if "src" in case:
+                    cand["src"] = case["src"]
                 yield cand
+
+    def shrink_free(self, case):
+        """every candidate is PINNED: it carries the complete choice sequence of its own run, so the
+        replay file reproduces from the recorded choices alone"""
+        def pinned(cand):
+            try:
+                chosen = self.run_impl(cand)["chosen"]
+            except core.Infra:
+                return None
+            return {**cand, "choices": chosen}
+
+        if "choices" not in case:
+            c = pinned(case)
+            if c is not None:
+                yield c
+            return
+        progs = case["programs"]
+        cands = []
+        for ti in range(len(progs)):
+            for oi in range(len(progs[ti])):
+                np_ = [list(p) for p in progs]
+                del np_[ti][oi]
+                cands.append({**case, "programs": np_})
+        for i in range(len(case["setup"])):
+            cands.append({**case, "setup": case["setup"][:i] + case["setup"][i + 1:]})
+        for cand in cands:
+            c = pinned(cand)  # the old choices guide the run as far as they apply
+            if c is not None:
+                yield c
 
     def _shrink_candidates(self, case):
         labels = case["labels"]
@@ -675,7 +1016,7 @@ class C13(core.PropertyCheck):
         import snooty.util as U
         old = U.threading
         U.threading = S.threading_shim()
-        rp = Replay(case)
+        rp = FreeRun(case) if "programs" in case else Replay(case)
         S.CURRENT = rp.s
         try:
             return rp.run()
@@ -688,6 +1029,8 @@ class C13(core.PropertyCheck):
 
     # ---- model ----
     def model_request(self, case):
+        if "programs" in case:
+            return None  # free scheduling: direct oracle only
         return {"op": "c13.run", "mode": MODE, "labels": case["labels"]}
 
     def compare(self, case, model, impl):
@@ -726,6 +1069,8 @@ class C13(core.PropertyCheck):
 
     # ---- direct oracle: the property itself on the implementation's observations ----
     def oracle(self, case, impl):
+        if impl.get("free"):
+            return free_oracle(case, impl)
         truth = impl["truth"]
         for r, out in impl["outcomes"].items():
             if out is None:
@@ -752,6 +1097,11 @@ class C13(core.PropertyCheck):
         return desc.split(":")[0] + (":" + desc.split(":")[1] if desc.startswith("request-failed") else "")
 
     def nontrivial_key(self, case, impl):
+        if impl.get("free"):
+            # a mutation overlapping a request in time, or a cancellation observed
+            hit = bool(impl["cancelled_runs"]) or any(
+                m["inv"] <= r["ret"] and (m["resp"] is None or m["resp"] >= r["inv"]) for m in impl["muts"] for r in impl["reqs"][:-1])
+            return json.dumps([case["setup"], case["programs"], impl["chosen"]]) if hit else None
         labels = case["labels"]
         inflight = set()
         hit = bool(impl["cancelled_runs"])
@@ -766,6 +1116,17 @@ class C13(core.PropertyCheck):
 
     def branch_tags(self, case, model, impl):
         tags = [case.get("kind", "corpus")]
+        tags.append("src:" + case.get("src", "same"))
+        if impl.get("free"):
+            if case.get("preempt"):
+                tags.append("free:one-preemption")
+            outs = [r["out"] for r in impl["reqs"]]
+            if "cancelled" in outs:
+                tags.append("outcome:cancelled")
+            if "s" in impl["event_log"]:
+                tags.append("cancel-event-set")
+            tags.append("free-steps:%d0-%d9" % (impl["steps"] // 10, impl["steps"] // 10))
+            return tags
         if case.get("inject"):
             tags.append("mutation-landed-in-copy-loop")
             if any(o.startswith("lockwait") for o in impl["inject_status"]):
@@ -787,6 +1148,9 @@ class C13(core.PropertyCheck):
         return tags
 
     def sample(self, case, impl):
+        if impl.get("free"):
+            return {"setup": case["setup"], "programs": case["programs"], "chosen": impl["chosen"],
+                    "requests": impl["reqs"], "final_store": impl["final_store"]}
         return {"labels": case["labels"], "inject": case.get("inject"), "outcomes": impl["outcomes"], "history": impl["truth"]}
 
 
